@@ -311,7 +311,8 @@ class Profiles:
             'macros': macros.copy(),
         }
         # prepare and save properties
-        properties = self._expand_macros(properties, self._usedMacros)
+        # work on a copy, the given dictionary belongs to the caller
+        properties = self._expand_macros(properties.copy(), self._usedMacros)
         self._profilesProperties[profile] = self._compile_regexes(properties)
 
         self.__update_knownNames()
